@@ -485,7 +485,9 @@ impl<Octets: AsRef<[u8]>> PerPeerHeader<Octets> {
     pub fn timestamp(&self) -> DateTime<Utc> {
         let s = self.ts_seconds() as i64;
         let us = self.ts_micros();
-        if let LocalResult::Single(ts)= Utc.timestamp_opt(s, us*1000) {
+        if let LocalResult::Single(ts) =
+            Utc.timestamp_opt(s, us.saturating_mul(1000))
+        {
             ts 
         } else {
             warn!(
